@@ -335,6 +335,8 @@ func oneCall(sc *scenario, srv *tagsrv.Server, cl doer, host string, id string, 
 
 var hangAfter = 120 * time.Second
 
+var dbgDumps atomic.Int32
+
 type result struct {
 	calls      []*call
 	snap       tagsrv.Snapshot
@@ -409,6 +411,9 @@ wait:
 		if n := completed.Load(); n != last {
 			last, lastChange = n, time.Now()
 		} else if sc.kind == kindPipeline && time.Since(lastChange) > 300*time.Millisecond {
+			if d := os.Getenv("C04_DEBUG_DIR"); d != "" && dbgDumps.Add(1) <= 4 {
+				os.WriteFile(fmt.Sprintf("%s/idle-%d.txt", d, sc.idx), []byte(mon.Stacks()), 0o644)
+			}
 			srv.CloseAll()
 			res.idleCloses++
 			lastChange = time.Now()
